@@ -122,6 +122,7 @@ func main() {
 				// The workloads write their evidence/replays elsewhere: C18 must
 				// not overwrite the other properties' evidence files.
 				"VERIF_ROOT="+filepath.Join(scratch, "race-root-"+u.id),
+				"VERIF_OUT=",
 			)
 			if u.hammer {
 				cmd.Env = append(cmd.Env, "VERIF_HAMMER=1")
